@@ -403,8 +403,9 @@ def fragment_condition(block_sl, which=0, name=None):
 
 
 def scalar_local_decls(func_sl, before_re):
-    """Top-level scalar local declarations with an initialiser that precede the (unique) match of before_re in the function
-    body, verbatim, in order.  Used to close an expression/loop-body fragment under the scalar locals it may reference."""
+    """Closure of a loop-body / expression fragment under the scalar locals declared (at the top level of the function body)
+    before the unique match of before_re: `const` ones are carried verbatim with their initialiser; non-const ones may have
+    been changed by earlier iterations, so they are declared WITHOUT initialiser (an unconstrained value in CBMC)."""
     header, body = body_of(func_sl.text)
     ms = list(re.finditer(before_re, body))
     if len(ms) != 1:
@@ -413,8 +414,9 @@ def scalar_local_decls(func_sl, before_re):
     for it in _split_items(body[:ms[0].start()]):
         if it[0] == 'simple':
             t = strip_comments(it[1]).strip()
-            if re.match(r'^(static\s+)?(const\s+)?(double|float|int|unsigned(\s+int)?|size_t|bool)\s+\w+\s*=[^;]*;$', t, re.S):
-                out.append(t)
+            m = re.match(r'^(static\s+)?(const\s+)?((?:unsigned\s+)?(?:double|float|int|long|short|char|size_t|bool|unsigned))\s+(\w+)\s*=[^;]*;$', t, re.S)
+            if m:
+                out.append(t if m.group(2) else "%s %s;   /* arbitrary: may have been changed by earlier iterations */" % (m.group(3), m.group(4)))
     return out
 
 
@@ -438,7 +440,7 @@ def body_continue_to_return(sl, ret="return;"):
                 t2, k = re.subn(r'\bcontinue\s*;', ret, it[1]); n += k
                 out.append(t2)
             else:
-                out.append(it[1] + "\n")
+                out.append("\n" + it[1] + "\n")      # preprocessor line: keep it on a line of its own
         return "".join(out), n
     t = sl.text.strip()
     inner, n = rec(t[1:match_close(t, 0)])
